@@ -240,19 +240,29 @@ func RWRUnlock(m *sync.RWMutex, id uint32) {
 	}
 }
 
-// OnceDo replaces (*sync.Once).Do.
+// OnceDo replaces (*sync.Once).Do. While a simulation is active the real Once is never touched: the
+// per-simulation shadow state alone decides, so every run sees every Once (including package-level
+// ones that an earlier run in the same process has already fired) as fresh - the semantics of a
+// fresh process. Concurrent callers park until the running call finishes, as with the real Once.
 func OnceDo(o *sync.Once, f func(), id uint32) {
 	s := active.Load()
 	if s == nil {
 		o.Do(f)
 		return
 	}
-	t := s.arrive(id)
-	if t == nil {
-		o.Do(f)
-		return
+	g := getg()
+	var t *Task
+	if g != s.rootG {
+		t = s.arrive(id)
+		if t == nil {
+			if s.aborting.Load() {
+				return // torn-down run: never start new once-bodies
+			}
+			o.Do(f) // uncontrolled goroutine
+			return
+		}
+		s.syncPoint(t, id)
 	}
-	s.syncPoint(t, id)
 	p := unsafe.Pointer(o)
 	for {
 		s.mu.Lock()
@@ -261,9 +271,8 @@ func OnceDo(o *sync.Once, f func(), id uint32) {
 			sh = &shadowOnce{}
 			s.onces[p] = sh
 		}
-		if sh.done || (sh.running && sh.owner == t) {
+		if sh.done {
 			s.mu.Unlock()
-			o.Do(f) // no-op (or the documented self-deadlock)
 			return
 		}
 		if !sh.running {
@@ -276,44 +285,34 @@ func OnceDo(o *sync.Once, f func(), id uint32) {
 				sh.done = true
 				s.mu.Unlock()
 			}()
-			o.Do(f)
+			f()
 			return
 		}
 		s.mu.Unlock()
+		if t == nil || sh.owner == t {
+			// re-entrant call: the real Once would deadlock here
+			if t == nil {
+				panic("simrt: re-entrant sync.Once.Do from the root goroutine")
+			}
+			s.park(t, id, wkOnce, p)
+			continue
+		}
 		s.park(t, id, wkOnce, p)
 	}
 }
 
 // OnceFunc replaces sync.OnceFunc.
 func OnceFunc(f func()) func() {
-	var o sync.Once
-	var valid bool
-	var p any
-	g := func() {
-		defer func() {
-			p = recover()
-			if !valid {
-				panic(p)
-			}
-		}()
-		f()
-		f = nil
-		valid = true
-	}
-	return func() {
-		OnceDo(&o, g, 0)
-		if !valid {
-			panic(p)
-		}
-	}
+	o := new(sync.Once)
+	return func() { OnceDo(o, f, 0) }
 }
 
 // OnceValue replaces sync.OnceValue.
 func OnceValue[T any](f func() T) func() T {
-	var o sync.Once
+	o := new(sync.Once)
 	var r T
 	return func() T {
-		OnceDo(&o, func() { r = f() }, 0)
+		OnceDo(o, func() { r = f() }, 0)
 		return r
 	}
 }
